@@ -78,10 +78,29 @@ def shapeX (decls : List Decl) : Nat → Ty → Option Shape
     | .paren t | .readonly t => shapeX decls n t
     | .ref name args => match decls.find? (fun d => d.name == name) with
       | some (.alias _ ps body) => shapeX decls n (subst (ps.zip args) body)
+      -- an interface is the intersection of what it extends and its own members
+      | some (.iface _ ps ext ms) =>
+        let σ := ps.zip args
+        (match (ext.map (subst σ)).mapM (shapeX decls n) with
+        | some shs => some ((shs ++ [(substM σ ms, none)]).foldl mergeShape ([], none))
+        | none => none)
       | _ => none
     | .inter ts => match ts.mapM (shapeX decls n) with
       | some (s0 :: rest) => some (rest.foldl mergeShape s0)
       | _ => none
+    -- the mapped built-ins over an object-like operand (an index signature: only where TypeScript's answer is plain)
+    | .bi "Partial" [x] => (shapeX decls n x).map fun sh =>
+        (sh.1.map (fun m => (m.1, true, m.2.2)), sh.2.map (fun i => (i.1, Ty.union [i.2, .kw "undefined"])))
+    | .bi "Required" [x] => (match shapeX decls n x with
+      | some (ms, none) => some (ms.map (fun m => (m.1, false, m.2.2)), none)
+      | _ => none)
+    | .bi "Readonly" [x] => shapeX decls n x
+    | .bi "Pick" [x, ks] => (match shapeX decls n x, Spec.litKeys decls n ks with
+      | some (ms, none), some keys => some (ms.filter (fun m => keys.contains m.1), none)
+      | _, _ => none)
+    | .bi "Omit" [x, ks] => (match shapeX decls n x, Spec.litKeys decls n ks with
+      | some (ms, none), some keys => some (ms.filter (fun m => !keys.contains m.1), none)
+      | _, _ => none)
     | _ => none
 
 /-- disjunctive normal form of the type operators: a union of intersections of atoms (aliases unfolded) -/
@@ -152,7 +171,13 @@ def memRG (decls : List Decl) (exact lenient : Bool) : Nat → Ty → JsVal → 
           else allO (fun a => memRG decls exact lenient n a v) c) (conjs decls 20 t)
     | .ref name args => (match decls.find? (fun d => d.name == name) with
       | some (.alias _ ps body) => memRG decls exact lenient n (subst (ps.zip args) body) v
+      | some (.iface _ _ _ _) => (match shapeX decls 50 t with
+        | some sh => memShapeR exact (memRG decls exact lenient n) sh.1 sh.2 v lenient
+        | none => none)
       | _ => none)
+    | .bi "Partial" _ | .bi "Required" _ | .bi "Readonly" _ | .bi "Pick" _ | .bi "Omit" _ => (match shapeX decls 50 t with
+      | some sh => memShapeR exact (memRG decls exact lenient n) sh.1 sh.2 v lenient
+      | none => none)
     | .bi "Map" [k, x] => (match v with
       | .map es => allO (fun (e : JsVal × JsVal) =>
           match memRG decls exact lenient n k e.1, memRG decls exact lenient n x e.2 with
